@@ -77,20 +77,23 @@ func (f *fAdapterTransport) Open() error {
 		}
 	}
 
-	go f.readLoop()
+	// Each session gets its own close signal so that a token left behind by an
+	// earlier session can never be mistaken for a close of this one.
+	f.closeSignal = make(chan struct{}, 1)
+	go f.readLoop(f.closeSignal)
 	f.isOpen = true
 	f.closeChan = make(chan error, 1)
 	return nil
 }
 
-func (f *fAdapterTransport) readLoop() {
+func (f *fAdapterTransport) readLoop(closeSignal chan struct{}) {
 	framedTransport := NewTFramedTransport(f.transport)
 	for {
 		frame, err := f.readFrame(framedTransport)
 		if err != nil {
 			// First check if the transport was closed.
 			select {
-			case <-f.closeSignal:
+			case <-closeSignal:
 				// Transport was closed.
 				return
 			default:
@@ -98,19 +101,19 @@ func (f *fAdapterTransport) readLoop() {
 
 			if err, ok := err.(thrift.TTransportException); ok && err.TypeId() == TRANSPORT_EXCEPTION_END_OF_FILE {
 				// EOF indicates remote peer disconnected.
-				f.Close()
+				f.closeSession(closeSignal, nil)
 				return
 			}
 
 			logger().Error("frugal: error reading protocol frame, closing transport: ", err)
-			f.close(err)
+			f.closeSession(closeSignal, err)
 			return
 		}
 
 		if err := f.registry.Execute(frame); err != nil {
 			// An error here indicates an unrecoverable error, teardown transport.
 			logger().Error("frugal: closing transport due to unrecoverable error processing frame: ", err)
-			f.close(err)
+			f.closeSession(closeSignal, err)
 			return
 		}
 	}
@@ -142,10 +145,16 @@ func (f *fAdapterTransport) Close() error {
 }
 
 func (f *fAdapterTransport) close(cause error) error {
+	return f.closeSession(nil, cause)
+}
+
+// closeSession closes the transport. A read loop passes the close signal of the
+// session it serves, so a loop outliving its session cannot close a later one.
+func (f *fAdapterTransport) closeSession(session chan struct{}, cause error) error {
 	f.mu.Lock()
 	defer f.mu.Unlock()
 
-	if !f.isOpen {
+	if !f.isOpen || (session != nil && session != f.closeSignal) {
 		return thrift.NewTTransportException(TRANSPORT_EXCEPTION_NOT_OPEN, "Transport not open")
 	}
 
